@@ -240,17 +240,88 @@ def _hist_verdict(rep, fit, obj, who, user_fixed):
                        f"({', '.join(fresh_[:6])})")
 
 
+def check_order_semantic(project: Project, rep) -> str:
+    """TF-ORDER decided by evaluation: `transform` (and `fit_transform`) of one imager on collections of 2, 3, 4 and 5 distinct
+    diagrams, serially and with n_jobs=2, with the per-diagram routine observed instead of executed (its result is named after
+    the diagram it was given).  The list handed back must hold the image of diagram k at position k.  ok / refuted /
+    unmodelled."""
+    from ..core.values import NoneV
+    c = project.cls(IMG)
+    TRQ = "persim.images._transform"
+    if TRQ not in project.functions:
+        return "unmodelled"
+    callee = project.function(TRQ)
+    S = lambda n: Sc(sym.Sym(n))
+    n_runs = 0
+    for mname in ("transform", "fit_transform"):
+        m = c.methods.get(mname)
+        if m is None:
+            continue
+        for n_dgm in (2, 3, 4, 5):
+            for n_jobs in (NoneV(), Sc(sym.Num(2.0))):
+                if mname == "fit_transform" and (n_dgm > 3 or not isinstance(n_jobs, NoneV)):
+                    continue
+                names = [f"D{k}" for k in range(n_dgm)]
+
+                def stub(I_, bound, n, names=names):
+                    d = bound.get(callee.params[0])
+                    src = sorted({x[1] for x in sym.walk(d.elem) if x[0] == "in"}) if isinstance(d, Arr) else []
+                    if len(src) != 1 or src[0] not in names:
+                        return I_.unknown("per-diagram-argument", n)
+                    return Sc(sym.Opq("image-of", (sym.Sym(src[0]),), None))
+                I = Interp(project, Config(nonempty={("rows", nm) for nm in names}, finite_inputs=set(names),
+                                           flags={"stub_func": {TRQ: stub}}))
+                obj = I.construct(IMG, [], {"birth_range": Seq([S("b0"), S("b1")], "tuple"),
+                                            "pers_range": Seq([S("q0"), S("q1")], "tuple"), "pixel_size": S("p")}, None)
+                kw = {"n_jobs": n_jobs} if mname == "transform" else {}
+                try:
+                    r = I.call_function(m, [obj, Seq([dgm_input(nm) for nm in names], "list")], kw, None)
+                except AnalysisError as ex:
+                    rep.unmodelled("TF-ORDER", m, m.node, f"{mname} on {n_dgm} diagrams: {ex}"[:160])
+                    return "unmodelled"
+                if I.unmodelled or I.lossy:
+                    why = I.lossy[0]["why"] if I.lossy else "unmodelled value: " + I.unmodelled[0]["tag"]
+                    rep.unmodelled("TF-ORDER", m, m.node, f"{mname} on a collection of {n_dgm} diagrams could not be followed exactly "
+                                                          f"({why})")
+                    return "unmodelled"
+                got = None
+                if isinstance(r, Seq):
+                    got = [x.e[2][0][1] if isinstance(x, Sc) and x.e is not None and x.e[0] == "opq" and x.e[1] == "image-of" else None
+                           for x in r.items]
+                if got != names:
+                    shown = got if got is not None else repr(r)[:80]
+                    rep.refuted("TF-ORDER", m, m.node,
+                                f"{mname} of the collection [{', '.join(names)}]" + (" with n_jobs=2" if not isinstance(n_jobs, NoneV) else "") +
+                                f" returns the images of {shown}: not one image per diagram in the order given "
+                                f"(None = something that is not the image of one of the diagrams)",
+                                construct=f"{m.qualname}: order of the images", failing_input=f"a collection of {n_dgm} diagrams")
+                    return "refuted"
+                n_runs += 1
+    rep.discharged("TF-ORDER", c.methods["transform"], c.methods["transform"].node,
+                   f"evaluated on collections of 2 to 5 diagrams ({n_runs} runs: transform serial and n_jobs=2, fit_transform): "
+                   f"position k of the result is the image of diagram k")
+    return "ok"
+
+
 def check_order(project: Project, rep):
     c = project.cls(IMG)
     tr = c.methods["transform"]
+    from ..core.report import Report as _Report
+    pre = _Report("C18-order")
+    st = check_order_semantic(project, pre)
+    if st != "unmodelled":
+        check_order_semantic(project, rep)
+        return
     comps = [n for n in ast.walk(tr.node) if isinstance(n, (ast.ListComp, ast.GeneratorExp))]
     ok = 0
     for n in comps:
         g = n.generators[0]
         it = ast.unparse(g.iter)
         if "reversed" in it or "sorted" in it or "[::-1]" in it or g.ifs:
-            rep.refuted("TF-ORDER", tr, n, f"the collection is mapped over `{it}`" + (" with a filter" if g.ifs else "") +
-                        ": images are not returned element by element in the input order")
+            # the evaluation above could not follow transform; a re-ordering construct on the way is not by itself a
+            # violation (keys of a position-indexed dictionary are sorted to restore the input order, say)
+            rep.unmodelled("TF-ORDER", tr, n, f"the collection is mapped over `{it}`" + (" with a filter" if g.ifs else "") +
+                           ": whether the images come back in the input order was not decided")
         else:
             ok += 1
     if ok:
